@@ -104,12 +104,13 @@ def scenarios(prop, tier):
         S.append(("up65536", uploads([65536]), dict(window=65535, wu_unit=70000), {}))
         S.append(("up3x65535+get", uploads([3 * 65535, None]), dict(window=65535, wu_unit=65535), {}))
         S.append(("up20-mfs-iws", uploads([20]), dict(init_settings={SC.INITIAL_WINDOW_SIZE: 7}, settings=[{"iws": 12}, {"iws": 2}], window=7, wu_unit=5), {}))
+        # 67,000 DATA frames of 4 bytes + 255 padding: 17.4 MB of flow-controlled bytes - more than the
+        # 16 MiB + 65,535 of credit the client grants up front, so the credit it RETURNS (for padding
+        # too) is what keeps a server that respects the windows going
+        S.append(("download-padded-17MiB-of-credit", [dict(name="r1", url="http://a.test/big1"), dict(name="r2", url="http://a.test/2")], dict(pad=255), {"big": 67000 * 4, "frame": 4}))
         if not quick:
-            S.append(("download-padded-17MiB-of-credit", [dict(name="r1", url="http://a.test/big1"), dict(name="r2", url="http://a.test/2")], dict(pad=255), {"big": 67000 * 4, "frame": 4}))
             S.append(("download-17MiB", [dict(name="r1", url="http://a.test/big1"), dict(name="r2", url="http://a.test/2")], dict(), {"big": 17 * 1024 * 1024 + 123}))
         else:
-            # 300 DATA frames of 4 bytes + 255 padding: the padding alone is more than the stream window
-            S.append(("download-padded-76KiB-of-credit", [dict(name="r1", url="http://a.test/big1"), dict(name="r2", url="http://a.test/2")], dict(pad=255), {"big": 300 * 4, "frame": 4}))
             S.append(("download-200KiB", [dict(name="r1", url="http://a.test/big1"), dict(name="r2", url="http://a.test/2")], dict(), {"big": 200 * 1024 + 7}))
     return S
 
@@ -191,7 +192,12 @@ def run_into(chk, prop, tier):
         make = make_factory(calls, srv, extra)
         heavy = bool(extra.get("big")) or any(len(c.get("content", b"") or b"") > 1000 for c in calls)
         run = make()
-        run.run(h2_decide, max_choices=100000)
+        if heavy:
+            run.MAX_STEPS = 5000000
+            run.record = False  # (only the wire log is judged; per-quantum observations would be ~1 KB each)
+        run.run(h2_decide, max_choices=1000000 if heavy else 100000)
+        if run.loop.steps >= run.MAX_STEPS:
+            raise tlc.MachineryError(f"scenario {sid_}: the execution was cut off by the harness's step limit (nothing may be concluded from a truncated run)")
         items.append((sid_, ("base",), run))
         if heavy:
             continue
